@@ -451,9 +451,19 @@ Definition cone_params_ok (c : cone) : bool :=
   if (nvars c =? 0)%N then true
   else match c with GenPowC a _ => genpow_ok a | _ => true end.
 
-Definition solve_method_ok (s : string) : bool :=
+(** Two sites per enum-like string setting, modelled separately:
+    the VALIDATOR (settings.rs: validate_direct_solve_method /
+    validate_chordal_decomposition_merge_method, shared by the builder, DefaultSettings::validate
+    and load_from_file's validation) and the CONSUMER that panics on anything it does not match
+    (directldlkktsolver.rs: get_ldlsolver_config; chordal/sparsity_pattern.rs: the merge
+    strategy match).  Both match the exact byte strings. *)
+Definition validator_solve_method_ok (s : string) : bool :=
   String.eqb s "auto" || String.eqb s "qdldl" || String.eqb s "faer".
-Definition merge_method_ok (s : string) : bool :=
+Definition consumer_solve_method_ok (s : string) : bool :=
+  String.eqb s "auto" || String.eqb s "qdldl" || String.eqb s "faer".
+Definition validator_merge_method_ok (s : string) : bool :=
+  String.eqb s "none" || String.eqb s "parent_child" || String.eqb s "clique_graph".
+Definition consumer_merge_method_ok (s : string) : bool :=
   String.eqb s "none" || String.eqb s "parent_child" || String.eqb s "clique_graph".
 
 Definition total_nvars (cs : list cone) : N := fold_left (fun acc c => acc + nvars c)%N cs 0%N.
@@ -474,7 +484,7 @@ Definition solver_new (p : problem) : outcome problem :=
   if negb (check_dimensions_ok p) then LoadPanic
   else if negb (forallb cone_params_ok (pcones p)) then LoadPanic
   else if negb (get_b (pset p) "direct_kkt_solver") then LoadPanic
-  else if negb (solve_method_ok (get_s (pset p) "direct_solve_method")) then LoadPanic
+  else if negb (consumer_solve_method_ok (get_s (pset p) "direct_solve_method")) then LoadPanic
   else LoadOk p.
 
 (** the validation added to load_from_file by the fix *)
@@ -487,8 +497,8 @@ Definition validate (p : problem) : bool :=
   && (total_nvars (pcones p) =? lenN (pb p))%N
   && forallb cone_params_ok (pcones p)
   && wf_settingsb schema (pset p)
-  && solve_method_ok (get_s (pset p) "direct_solve_method")
-  && merge_method_ok (get_s (pset p) "chordal_decomposition_merge_method")
+  && validator_solve_method_ok (get_s (pset p) "direct_solve_method")
+  && validator_merge_method_ok (get_s (pset p) "chordal_decomposition_merge_method")
   && get_b (pset p) "direct_kkt_solver".
 
 Definition with_settings (p : problem) (s : settings) : problem :=
